@@ -14,7 +14,7 @@
 #define VF_DRIVER_H
 #include "explorer.h"
 
-enum { VF_ST_DONE = 0, VF_ST_FATAL = 1, VF_ST_HORIZON = 2, VF_ST_MISMATCH = 3 };
+enum { VF_ST_DONE = 0, VF_ST_FATAL = 1, VF_ST_HORIZON = 2, VF_ST_MISMATCH = 3, VF_ST_INITFAIL = 4 };
 
 static jmp_buf vf_jmp;
 static int vf_in_yylex;
@@ -28,6 +28,7 @@ static FILE *vf_out;
 static int vf_cur_more_prefix;      /* bytes of yytext carried over by yymore() */
 static int vf_act_ops, vf_act_io, vf_act_did_input, vf_act_did[16];   /* operations already performed in the current action */
 static int vf_pushed_back, vf_need_max;
+static int vf_last_status;
 static int vf_pre_pending;           /* a pre-action ran and no action body has run since */
 static int vf_prev_act; static const char *vf_prev_text; static long vf_prev_leng, vf_prev_reads, vf_prev_calls, vf_lex_calls, vf_n_dup_preaction;
 static int vf_rej_newlines;          /* newlines in text given back by yyreject() so far in this execution */
@@ -132,12 +133,36 @@ static int vf_next_chunk(size_t max_size)
 #endif
 	return n;
 }
+/* injected read faults (C14): at the vf_fault_read-th read request of the execution */
+enum { VF_F_NONE = 0, VF_F_EINTR1, VF_F_EINTR2, VF_F_HARD, VF_F_PARTIAL, VF_F_NKINDS };
+static long vf_exec_reads, vf_fault_read, vf_last_reads, vf_last_allocs; static int vf_fault_kind, vf_fault_left;
+static int vf_fault_now(void)
+{
+	if (vf_fault_left > 0) { vf_fault_left--; return vf_fault_kind; }      /* the same request interrupted again */
+	vf_exec_reads++;
+	if (vf_fault_kind && vf_exec_reads == vf_fault_read) {
+		vf_fault_left = (vf_fault_kind == VF_F_EINTR2) ? 1 : 0;
+		return vf_fault_kind;
+	}
+	return 0;
+}
 #ifdef VF_DEFAULT_INPUT
 static size_t vf_fread(void *p, size_t sz, size_t n, FILE *f)
 {
-	int k;
+	int k, flt;
 	(void)f; (void)sz;
 	vf_step(); vf_n_reads++;
+	flt = vf_fault_now();
+	if (flt == VF_F_EINTR1 || flt == VF_F_EINTR2) { vf_err_flag = 1; errno = EINTR; return 0; }
+	if (flt == VF_F_HARD) { vf_err_flag = 1; errno = EIO; return 0; }
+	if (flt == VF_F_PARTIAL) {
+		/* a signal arrives after part of the request has been collected: short count, error indicator set */
+		k = vf_next_chunk(n);
+		if (k > 1) k = k / 2;
+		if (k > 0) memcpy(p, vf_in + vf_in_pos, (size_t)k);
+		vf_in_pos += k; vf_err_flag = 1; errno = EINTR;
+		return (size_t)k;
+	}
 	k = vf_next_chunk(n);
 	if (k > 0) memcpy(p, vf_in + vf_in_pos, (size_t)k);
 	vf_in_pos += k;
@@ -145,8 +170,12 @@ static size_t vf_fread(void *p, size_t sz, size_t n, FILE *f)
 }
 static int vf_getc(FILE *f)
 {
+	int flt;
 	(void)f;
 	vf_n_reads++;
+	flt = vf_fault_now();
+	if (flt == VF_F_EINTR1 || flt == VF_F_EINTR2) { vf_err_flag = 1; errno = EINTR; return EOF; }
+	if (flt == VF_F_HARD || flt == VF_F_PARTIAL) { vf_err_flag = 1; errno = EIO; return EOF; }
 	if (vf_in_pos >= vf_in_len) { vf_step(); return EOF; }
 	return vf_in[vf_in_pos++];
 }
@@ -155,9 +184,12 @@ static void vf_clearerr(FILE *f) { (void)f; vf_err_flag = 0; }
 static int vf_isatty(int fd) { (void)fd; return VF_DEFAULT_INPUT == 2; }
 static long vf_sysread(int fd, void *buf, size_t n)
 {
-	int k;
+	int k, flt;
 	(void)fd;
 	vf_step(); vf_n_reads++;
+	flt = vf_fault_now();
+	if (flt == VF_F_EINTR1 || flt == VF_F_EINTR2) { errno = EINTR; return -1; }
+	if (flt == VF_F_HARD || flt == VF_F_PARTIAL) { errno = EIO; return -1; }
 	k = vf_next_chunk(n);
 	if (k > 0) memcpy(buf, vf_in + vf_in_pos, (size_t)k);
 	vf_in_pos += k;
@@ -483,6 +515,10 @@ static void vf_did_setline(int v, int now)
 	vf_n_op_effect++;
 }
 
+#ifdef VF_LEDGER
+#include "ledger.h"
+#endif
+
 /* ---- API flavour glue ---- */
 #if defined(VF_API_NR)
 #define VF_LEX() yylex()
@@ -501,10 +537,20 @@ static yyscan_t vf_scanner;
 #define VF_LEX() yylex(vf_scanner)
 #define VF_S0 vf_scanner
 #define VF_S1 , vf_scanner
+static int vf_init_failed;          /* yylex_init returned non-zero (with errno) */
 static void vf_fresh(void)
 {
 	if (vf_scanner) { yylex_destroy(vf_scanner); vf_scanner = 0; }
-	if (yylex_init(&vf_scanner) != 0) vf_hard_error("yylex_init failed");
+	vf_init_failed = 0;
+	errno = 0;
+	if (yylex_init(&vf_scanner) != 0) {
+#ifdef VF_FAULTS
+		vf_init_failed = errno ? errno : -1;
+		vf_scanner = 0;
+		if (vf_in_yylex) longjmp(vf_jmp, VF_ST_INITFAIL + 1);
+#endif
+		vf_hard_error("yylex_init failed");
+	}
 }
 static void vf_finish(void) { if (vf_scanner) { yylex_destroy(vf_scanner); vf_scanner = 0; } }
 #elif defined(VF_API_CXX)
@@ -573,6 +619,9 @@ static long vf_n_expected_fatal;
 static void vf_report(int st)
 {
 	int i;
+#ifdef VF_FAULTS
+	if (vf_alloc_fail_at || vf_fault_kind) return;     /* outcomes of runs with an injected fault are judged by vf_fault_enumerate */
+#endif
 	if (st == VF_ST_FATAL && vf_expected_fatal && strstr(vf_fatal_msg, vf_expected_fatal)) {
 		vf_n_expected_fatal++;
 		return;
@@ -607,7 +656,7 @@ static void vf_report(int st)
 static void vf_run_one(void)
 {
 	int st, r;
-	vf_in_pos = 0; vf_steps = 0; vf_tok_in_exec = 0; vf_nrules_in_exec = 0; vf_need_max = 0; vf_frozen_line = 1; vf_rej_newlines = 0; vf_prev_act = -1; vf_prev_text = 0; vf_pre_pending = 0;
+	vf_in_pos = 0; vf_steps = 0; vf_tok_in_exec = 0; vf_nrules_in_exec = 0; vf_need_max = 0; vf_frozen_line = 1; vf_rej_newlines = 0; vf_prev_act = -1; vf_prev_text = 0; vf_pre_pending = 0; vf_exec_reads = 0; vf_fault_left = 0; vf_err_flag = 0;
 	vf_cur_sc = vf_g->sc; vf_cur_more_prefix = 0; vf_expected_fatal = 0; vf_expect_underflow = 0;
 	vf_ref_init(&vf_R, vf_in, vf_in_len, vf_g->sc);
 #ifdef VF_EXPECT_FATAL
@@ -663,9 +712,104 @@ static void vf_run_one(void)
 		vf_report(st - 1);
 	}
 	if (vf_tok_in_exec >= 2 && vf_nrules_in_exec >= 2) vf_n_nontrivial++;
+	vf_last_status = st ? st - 1 : VF_ST_DONE;
+	vf_last_reads = vf_exec_reads;
+#ifdef VF_LEDGER
+	vf_last_allocs = vf_alloc_count;
+	if (vf_last_status == VF_ST_DONE) {
+		/* the user has no buffers of their own here: after yylex_destroy everything must have been handed back */
+		vf_ledger_msg[0] = 0;
+		vf_finish();
+		vf_ledger_check_empty();
+		if (vf_ledger_msg[0]) {
+			vf_n_mismatch++;
+			if (vf_reported_in_group < VF_MAX_REPORT_PER_GROUP) {
+				int i;
+				vf_reported_in_group++;
+				fprintf(vf_out, "{\"viol\":\"ledger\",\"group\":%d,\"sc\":%d,\"bufsize\":%d,\"input\":", vf_g->id, vf_g->sc, vf_bufsize);
+				vf_hex(vf_out, vf_in, vf_in_len);
+				fprintf(vf_out, ",\"choices\":[");
+				for (i = 0; i < vf_tr_len; i++) fprintf(vf_out, "%s%d", i ? "," : "", vf_tr_choice[i]);
+				fprintf(vf_out, "],\"what\":\"%s\"}\n", vf_ledger_msg);
+			}
+		}
+	} else {
+		/* abandoned by the fatal-error hook or a mismatch: whatever the scanner still holds is released, nothing is judged */
+		vf_finish();
+		vf_ledger_abandon();
+		vf_ledger_msg[0] = 0;
+	}
+	vf_ledger_reset_counts();
+#endif
 }
 
 static const int vf_bufsizes[] = { VF_BUFSIZES };
+
+#ifdef VF_FAULTS
+/* C14: for this scenario (input x buffer size) fail every allocation request in turn, and inject every kind of read
+ * fault at every read request; the outcome of each run must be the documented one. */
+static long vf_n_fault_runs, vf_n_fault_ok, vf_n_alloc_faults, vf_n_read_faults;
+static int vf_fault_reported[6];
+static void vf_fault_report(const char *fault, long index, const char *expected)
+{
+	static const char *names[] = { "completed normally", "fatal-error hook", "step horizon", "mismatch with the reference", "yylex_init error return" };
+	vf_n_mismatch++;
+	{
+		/* one report per fault kind and scenario, so that a frequent (possibly known) kind cannot crowd out another */
+		int slot = !strcmp(fault, "allocation failure") ? 0 : !strcmp(fault, "EINTR") ? 1 : !strcmp(fault, "EINTR twice") ? 2 :
+			   !strcmp(fault, "read error") ? 3 : !strcmp(fault, "no fault") ? 5 : 4;
+		if (vf_fault_reported[slot]) return;
+		vf_fault_reported[slot] = 1;
+	}
+	fprintf(vf_out, "{\"viol\":\"fault\",\"group\":%d,\"sc\":%d,\"bufsize\":%d,\"input\":", vf_g->id, vf_g->sc, vf_bufsize);
+	vf_hex(vf_out, vf_in, vf_in_len);
+	fprintf(vf_out, ",\"choices\":[],\"fault\":\"%s\",\"index\":%ld,\"what\":\"%s #%ld: expected %s, outcome: %s%s%s\",\"tok\":%d}\n",
+		fault, index, fault, index, expected, names[vf_last_status],
+		vf_last_status == VF_ST_FATAL ? " - " : "", vf_last_status == VF_ST_FATAL ? vf_fatal_msg : "", vf_tok_in_exec);
+}
+static void vf_fault_enumerate(void)
+{
+	long N, Rn, k;
+	int kind;
+	static const char *kn[] = { "", "EINTR", "EINTR twice", "read error", "EINTR after a partial read" };
+	vf_explore_off = 1;
+	memset(vf_fault_reported, 0, sizeof vf_fault_reported);
+	vf_alloc_fail_at = 0; vf_fault_kind = 0;
+	vf_executions++; vf_run_one();
+	if (vf_last_status != VF_ST_DONE) { vf_fault_report("no fault", 0, "normal completion"); return; }
+	N = vf_last_allocs; Rn = vf_last_reads;
+	for (k = 1; k <= N; k++) {
+		vf_alloc_fail_at = k;
+		vf_executions++; vf_n_fault_runs++; vf_n_alloc_faults++;
+		vf_run_one();
+		if (vf_last_status == VF_ST_FATAL && vf_fatal_msg[0]) vf_n_fault_ok++;        /* stopped through the fatal-error hook with a message */
+#if defined(VF_API_R) || defined(VF_API_C99)
+		else if (vf_last_status == VF_ST_INITFAIL && (vf_init_failed == ENOMEM || vf_init_failed == EINVAL)) vf_n_fault_ok++;
+#endif
+		else vf_fault_report("allocation failure", k, "an error return or the fatal-error hook with a message");
+	}
+	vf_alloc_fail_at = 0;
+#ifdef VF_DEFAULT_INPUT
+	for (k = 1; k <= Rn; k++) {
+		for (kind = VF_F_EINTR1; kind < VF_F_NKINDS; kind++) {
+			if (kind == VF_F_PARTIAL && VF_DEFAULT_INPUT != 1) continue;
+			vf_fault_read = k; vf_fault_kind = kind;
+			vf_executions++; vf_n_fault_runs++; vf_n_read_faults++;
+			vf_run_one();
+			if (kind == VF_F_HARD) {
+				if (vf_last_status == VF_ST_FATAL && strstr(vf_fatal_msg, "input in flex scanner failed")) vf_n_fault_ok++;
+				else vf_fault_report(kn[kind], k, "the fatal-error hook with 'input in flex scanner failed'");
+			} else {
+				if (vf_last_status == VF_ST_DONE) vf_n_fault_ok++;
+				else vf_fault_report(kn[kind], k, "the read to be retried and the token stream unchanged");
+			}
+		}
+	}
+	vf_fault_kind = 0;
+#endif
+	(void)Rn;
+}
+#endif
 
 static void vf_explore_input(void)
 {
@@ -673,7 +817,9 @@ static void vf_explore_input(void)
 	vf_n_inputs++;
 	for (i = 0; i < (int)(sizeof vf_bufsizes / sizeof vf_bufsizes[0]); i++) {
 		vf_bufsize = vf_bufsizes[i];
-#ifdef VF_PRELOADS
+#if defined(VF_FAULTS)
+		vf_fault_enumerate();
+#elif defined(VF_PRELOADS)
 		{
 			int j;
 			for (j = 0; j < (int)(sizeof vf_preloads / sizeof vf_preloads[0]); j++) {
@@ -813,7 +959,15 @@ int main(int argc, char **argv)
 		vf_n_reads, vf_n_eof, vf_states_total, vf_edges_live, vf_edges_seen_n, vf_choice_points, vf_overflow,
 		vf_bound_done, vf_n_dup_preaction, vf_n_overread_checks, vf_n_expected_fatal, vf_n_op_effect);
 	for (i = 0; i < VF_NOPS; i++) fprintf(vf_out, "%s%ld", i ? "," : "", vf_n_ops[i]);
-	fprintf(vf_out, "]}\n");
+	fprintf(vf_out, "]");
+#ifdef VF_LEDGER
+	fprintf(vf_out, ",\"ledger_checks\":%ld,\"ledger_allocs\":%ld,\"ledger_errors\":%ld,\"ledger_leaks\":%ld", vf_ledger_checks, vf_ledger_allocs_total,
+		vf_ledger_errors, vf_ledger_leaks);
+#endif
+#ifdef VF_FAULTS
+	fprintf(vf_out, ",\"fault_runs\":%ld,\"fault_ok\":%ld,\"alloc_faults\":%ld,\"read_faults\":%ld", vf_n_fault_runs, vf_n_fault_ok, vf_n_alloc_faults, vf_n_read_faults);
+#endif
+	fprintf(vf_out, "}\n");
 	fclose(vf_out);
 	return 0;
 }
